@@ -799,7 +799,8 @@ static inline SyntaxKind recognize8(const char* s, const ParseOptions& opts)
                     if (s[4] == 'r') {
                         if (s[5] == 'i') {
                             if (s[6] == 'c') {
-                                if (s[7] == 't') {
+                                if (s[7] == 't'
+                                        && opts.languageDialect().std() >= LanguageDialect::Std::C99) {
                                     return SyntaxKind::Keyword_restrict;
                                 }
                             }
